@@ -703,6 +703,12 @@ func (r *Request) do() (resp *Response, err error) {
 		if contextCanceled || r.retryOption == nil || (r.RetryAttempt >= r.retryOption.MaxRetries && r.retryOption.MaxRetries >= 0) { // absolutely cannot retry.
 			return
 		}
+		if r.unReplayableBody != nil || r.unReplayableUpload {
+			// The body has been read by this attempt and cannot be sent again. Do refuses
+			// such a request up front when retries are enabled; they can also be switched
+			// on while the call is in flight (SetRetryCount from a middleware or hook).
+			return
+		}
 
 		// check retry whether is needed.
 		needRetry := err != nil                             // default behaviour: retry if error occurs
